@@ -2,7 +2,7 @@
     Statements only; every proof is [exact <lemma>]. *)
 From Coq Require Import String Ascii List Bool ZArith.
 From Raven Require Import Base.GoStr Model.Store Model.Ops Spec.UidSpec Proof.UidSpecB
-  Proof.StoreInv Proof.OpsInv Proof.UidHist Proof.UidAppend.
+  Proof.StoreInv Proof.OpsInv Proof.UidHist Proof.UidAppend Model.UidView Model.AppendSched Proof.AppendSched.
 Import ListNotations.
 Local Open Scope Z_scope.
 
@@ -106,6 +106,46 @@ Theorem c03_inv_reachable : forall t1 t2 t3 t4 t5 h,
   clean (init5 t1 t2 t3 t4 t5) h = true -> Inv (run h (init5 t1 t2 t3 t4 t5)).
 Proof. exact inv_reachable_l. Qed.
 Print Assumptions c03_inv_reachable.
+
+(** ---- schedules: APPEND at statement level against other writers ----------------
+
+    [append_sched_full s mb fl e1 e2 e3 e4] runs the statements of an APPEND to
+    mailbox row [mb] in the tree's order — store the message; U: hand out uid_next
+    (one UPDATE ... RETURNING); I: INSERT the link; R: read UIDVALIDITY; Q: read
+    the UID of the row of THIS message — with the complete, committed commands
+    [e1] [e2] [e3] [e4] of other sessions in between (before U, U-I, I-R, R-Q).
+    [writer_ok mb]: delivery, APPEND, COPY, UID COPY into any mailbox (also [mb]),
+    and UID STORE (with its Junk/NonJunk move, possibly INTO [mb]) issued with
+    another mailbox selected. *)
+
+(** For EVERY such interleaving: if the APPEND answers APPENDUID v u, then u is the
+    UID handed out to it, and the row it inserted (same ghost instance [g], the
+    message row stored by this APPEND) is in the final state under exactly that
+    UID.  Hypothesis: message ids of existing links are below the message counter
+    (holds initially and is preserved by every writer command: [MsgInv_run]). *)
+Theorem c03_appenduid_all_schedules : forall s mb fl e1 e2 e3 e4 s' v u ins,
+  (forall l, In l (links s) -> lk_msg l < next_msg s) ->
+  Forall (fun o => writer_ok mb o = true) (e1 ++ e2 ++ e3 ++ e4) ->
+  append_sched_full s mb fl e1 e2 e3 e4 = (s', RAppendUid v u, ins) ->
+  exists uid g l, ins = Some (uid, g) /\ u = uid /\ In l (links s') /\
+                  lk_msg l = next_msg s /\ lk_mbox l = mb /\ lk_uid l = u /\ lk_gid l = g.
+Proof. exact appenduid_all_schedules_l. Qed.
+Print Assumptions c03_appenduid_all_schedules.
+
+(** with no other writer the statement-level APPEND is the APPEND of the histories *)
+Theorem c03_append_sched_sequential : forall s f fl m,
+  find_name s f = Some m -> append_sched s (mb_id m) fl [] [] [] [] = op_append s f fl.
+Proof. exact append_sched_sequential_l. Qed.
+Print Assumptions c03_append_sched_sequential.
+
+(** regression (seeded change C03-3): announcing "uid_next - 1" from the read R
+    instead of reading the own row is refuted by ONE delivery between I and R *)
+Example c03_announce_uidnext_refuted :
+  let s := run sched_prep (init 100) in
+  exists e3 s' v u uid g,
+    Forall (fun o => writer_ok 1 o = true) e3 /\
+    append_sched_gen announce_uidnext s 1 [] [] [] e3 [] = (s', RAppendUid v u, Some (uid, g)) /\ u <> uid.
+Proof. exact announce_uidnext_refuted. Qed.
 
 (** non-vacuity: a clean history that uses every kind of operation (UID COPY,
     COPY, a Junk move, RENAME INBOX with a message in it, DELETE + CREATE of the
